@@ -561,6 +561,21 @@ func runC03(c *Ctx) {
 				top = top.Parent()
 			}
 			isUDP := top.Name() == "ServeUDP"
+			if !isUDP && isNewHelper(top) {
+				// the per-query goroutine of the datagram server as a function of its own
+				sites, asValue := callSitesOf(top)
+				all := !asValue && len(sites) > 0
+				for _, st := range sites {
+					r := st.Parent()
+					for r.Parent() != nil {
+						r = r.Parent()
+					}
+					if r.Name() != "ServeUDP" {
+						all = false
+					}
+				}
+				isUDP = all
+			}
 			key := "from-udp@" + funcName(top)
 			// the QueryMeta argument: a struct value; find the store into its FromUDP field
 			val := "unset"
